@@ -17,7 +17,7 @@ ID = "C01"
 LEVEL = "exploration"
 RULE = ("seeded products: sample type x geometry class (1x1,1xN,Nx1,NxM; lines up to 40 quick / 600 thorough) x "
         "bit-pattern class (random raw 32/16-bit patterns incl. NaN payloads, inf, -0.0, denormals; zeros; all-ones; "
-        "edges) x filesystem (local path, file://, memory://, vfs://) x records_per_chunk class (1, divisor, "
+        "edges) x filesystem (local path, file://, memory://, vfs://, lvfs://, zip archive) x records_per_chunk class (1, divisor, "
         "non-divisor, N-1, N, N+1, 2N+3, 2^40); plus the exhaustive block lines 1..Lmax x rpc 1..Lmax+1 x both types. "
         "Every random case opens three products: P, a twin with equal names/geometry elsewhere, and a replacement of P in place "
         "(same filesystem, root and names, other samples); 40% of the cases carry fully random line prefixes whose fill / "
@@ -78,7 +78,7 @@ def run_case(i, tier, seed):
     else:
         typ = rng.choice(["IU2", "C*8"])
         level = rng.choice(["1.5", "3.1"]) if typ == "IU2" else "1.1"
-        kind = harness.FS_KINDS[i % 5]
+        kind = harness.FS_KINDS[i % 6]
         k = rng.choice([1, 1, 2, 3, 4])
         geoms0 = [_geometry(rng, tier) for _ in range(k)]
         pat0 = rng.choice(PATTERNS)
@@ -94,7 +94,7 @@ def run_case(i, tier, seed):
     root0 = None
     for pidx, (geoms, pattern) in enumerate(products):
         if i < nrand:
-            kind = harness.FS_KINDS[(i + (pidx % 2)) % 5]
+            kind = harness.FS_KINDS[(i + (pidx % 2)) % 6]
         pols = ["HH", "HV", "VH", "VV"][: len(geoms)]
         names = gen.product_names(level, pols=pols)
         files = {}
